@@ -56,6 +56,11 @@ def run(check: Check) -> None:
 
 # ------------------------------------------------------------------------------------------------ W-grp
 def grouping(check: Check) -> None:
+    """By interpretation (AG-sem, sa/rules/aggregated_sem.py); the shape rule below is the fallback."""
+    from .aggregated_sem import aggregated_semantics
+
+    if "W-grp" in aggregated_semantics(check, ("W-grp",)):
+        return
     p = check.program
     fn = p.func("Aggregated.grouped_terms")
     check.analysed(fn)
